@@ -16,12 +16,21 @@ package transport
 //
 // Side 0 examines the server's view of the client address (the client roams), side 1 the client's view of the server
 // address (the server socket moves).
+//
+// Slow application: the endpoint under test is configured with a drawn receive queue length (the package default or
+// 1..5 packets: ServerConfig.MaxBufferedPacketsPerConnection / ClientConfig.MaxBufferedPackets) and its application
+// stops and resumes reading at drawn steps. While it is not reading, genuine packets fill the queue and further ones
+// are dropped by the endpoint ("recv queue full"). The address model is untouched by that: a packet that authenticates
+// and is fresh moves the address whether or not its payload could be handed to the application. The delivery clause
+// follows a harness-side model of the queue (reader waiting / queued / dropped), so a packet dropped at a full queue is
+// not counted as lost.
 
 import (
 	"bytes"
 	"encoding/binary"
 	"fmt"
 	"net"
+	"slices"
 	"sort"
 	"sync"
 	"testing"
@@ -70,6 +79,8 @@ type c15Step struct {
 	Ctl     bool   `json:"ctl,omitempty"`    // forged: message type Control instead of Transport
 	Cut     int    `json:"cut,omitempty"`    // truncated: resulting length
 	Burst   int    `json:"burst,omitempty"`  // stale: number of later genuine packets delivered before the held one is released (>= 449)
+	App     int    `json:"app,omitempty"`    // before this step the endpoint's application 1: stops reading, 2: resumes reading (0: no change)
+	Extra   int    `json:"extra,omitempty"`  // genuine/roam/move: the peer first sends this many more genuine packets from its current (old) address
 }
 
 type c15Case struct {
@@ -77,6 +88,7 @@ type c15Case struct {
 	Side   int       `json:"side"` // 0: server's view of the client address; 1: client's view of the server address
 	Steps  []c15Step `json:"steps"`
 	Fam    int       `json:"fam,omitempty"` // family of the fixture addresses: 0 IPv4-mapped 16-byte, 1 IPv4 4-byte, 2 IPv6 (the pool c15IPs mixes both anyway)
+	Queue  int       `json:"queue,omitempty"` // receive queue length (packets) of the endpoint under test; 0: the package default
 }
 
 var c15IPs = []string{"10.0.0.9", "192.168.7.7", "172.16.1.1", "2001:db8::5", "10.6.6.6", "203.0.113.77", "2001:db8::6", "2001:db8:1::5", "fd00::a00:2"}
@@ -131,20 +143,51 @@ func (w *c15Wire) since(n int) []simnet.Datagram {
 	return append([]simnet.Datagram(nil), w.log[n:]...)
 }
 
+// c15Reader is an application reading messages in a loop. pause makes it a slow application: it finishes the ReadMsg
+// call it is in (that call returns with the next message) and then does not call ReadMsg again until resume.
 type c15Reader struct {
-	mu sync.Mutex
-	n  int
+	mu   sync.Mutex
+	n    int
+	gate chan struct{} // non-nil while the application is busy elsewhere; closed by resume
+	quit chan struct{}
 }
 
 func (r *c15Reader) run(read func([]byte) (int, error)) {
 	buf := make([]byte, 70000)
 	for {
+		r.mu.Lock()
+		g := r.gate
+		r.mu.Unlock()
+		if g != nil {
+			select {
+			case <-g:
+			case <-r.quit:
+				return
+			}
+		}
 		if _, err := read(buf); err != nil {
 			return
 		}
 		r.mu.Lock()
 		r.n++
 		r.mu.Unlock()
+	}
+}
+
+func (r *c15Reader) pause() {
+	r.mu.Lock()
+	defer r.mu.Unlock()
+	if r.gate == nil {
+		r.gate = make(chan struct{})
+	}
+}
+
+func (r *c15Reader) resume() {
+	r.mu.Lock()
+	defer r.mu.Unlock()
+	if r.gate != nil {
+		close(r.gate)
+		r.gate = nil
 	}
 }
 
@@ -178,6 +221,13 @@ type c15Scn struct {
 	nextCtr   uint64       // the peer's next send counter
 	wantEut   int          // messages the endpoint's application must have received
 	wantPeer  int          // messages the peer's application must have received
+
+	// model of the endpoint's receive queue and of its application
+	qcap    int  // queue length in packets
+	q       int  // accepted messages waiting in the queue
+	rdIn    bool // the application is inside ReadMsg, waiting (then the queue is empty)
+	stalled bool // the application does not call ReadMsg again once the call it is in has returned
+	dropped int  // genuine fresh packets whose payload the endpoint dropped at a full queue
 
 	eutRd, peerRd c15Reader
 
@@ -228,9 +278,75 @@ func (s *c15Scn) genuine(st c15Step) bool {
 	if !c15Same(s.addr, d.Src) {
 		s.changes++
 	}
-	s.addr = d.Src // MODEL: delivered, genuine, unmodified, fresh
-	s.wantEut++
+	moved := !c15Same(s.addr, d.Src)
+	s.addr = d.Src // MODEL: delivered, genuine, unmodified, fresh (whether or not the payload finds room in the queue)
+	// MODEL of the hand-over to the application: a waiting reader takes the message; otherwise it is queued while
+	// there is room; otherwise the endpoint drops the payload (documented: "Packets after this will dropped until the
+	// user calls Read").
+	switch {
+	case s.rdIn:
+		s.wantEut++
+		if s.stalled {
+			s.rdIn = false // the slow application has got its message and is now busy with it
+		}
+		if moved && s.stalled {
+			s.label("roam-arrives-while-app-stalled:queue-has-room")
+		}
+	case s.q < s.qcap:
+		s.q++
+		if moved {
+			s.label("roam-arrives-while-app-stalled:queue-has-room")
+		}
+	default:
+		s.dropped++
+		s.label("genuine-packet-dropped-at-full-queue")
+		if moved {
+			s.label("roam-arrives-at-full-queue")
+		}
+	}
+	if s.c.Queue != 0 {
+		// a short queue and a reading application: let the application take the message before the next one arrives
+		// (otherwise whether a burst overflows the queue would depend on the scheduler)
+		synctest.Wait()
+	}
 	return true
+}
+
+// extra: the peer sends n more genuine packets from where it is now.
+func (s *c15Scn) extra(st c15Step) bool {
+	for i := 0; i < st.Extra; i++ {
+		if !s.genuine(c15Step{Seed: st.Seed ^ uint64(0xe0+i), Len: 1 + (st.Len+i)%9}) {
+			return false
+		}
+	}
+	if st.Extra > 0 {
+		s.label("step:with-extra-genuine-packets-first")
+	}
+	return true
+}
+
+// app applies the step's change of the application's reading behaviour (all goroutines are settled when it is called).
+func (s *c15Scn) app(st c15Step) {
+	switch {
+	case st.App == 1 && !s.stalled:
+		s.stalled = true
+		s.eutRd.pause()
+		s.label("app:stops-reading")
+	case st.App == 2 && s.stalled:
+		s.appResume()
+		s.label("app:resumes-reading")
+	}
+}
+
+func (s *c15Scn) appResume() {
+	s.stalled = false
+	s.eutRd.resume()
+	synctest.Wait()
+	// MODEL: a reading application empties the queue and waits in ReadMsg
+	if !s.rdIn {
+		s.wantEut += s.q
+		s.q, s.rdIn = 0, true
+	}
 }
 
 // intercept: the peer writes one message; the datagram is taken off the wire (never delivered) and returned.
@@ -382,12 +498,18 @@ func (s *c15Scn) step(st c15Step) (class string, from *net.UDPAddr, ok bool) {
 	switch st.Kind {
 	case c15Genuine:
 		s.label("step:genuine")
-		return "", nil, s.genuine(st)
+		return "", nil, s.extra(st) && s.genuine(st)
 	case c15Roam:
+		if !s.extra(st) {
+			return "", nil, false
+		}
 		how := s.move(st)
 		s.label("step:roam:%s", how)
 		return "", nil, s.genuine(st)
 	case c15Move:
+		if !s.extra(st) {
+			return "", nil, false
+		}
 		how := s.move(st)
 		s.label("step:silent-move:%s", how)
 		return "", nil, true
@@ -516,6 +638,9 @@ func (s *c15Scn) step(st c15Step) (class string, from *net.UDPAddr, ok bool) {
 		return "", nil, false
 	}
 	from, fcls := s.third(st)
+	if !s.rdIn && s.q >= s.qcap {
+		s.label("adversarial-datagram-arrives-at-full-queue")
+	}
 	s.label("adv:%s", class)
 	s.label("from:%s", fcls)
 	s.advs++
@@ -536,7 +661,15 @@ func c15Scenario(c c15Case, v *vlib.Verdict, s *c15Scn) {
 	w := vGetWorld()
 	s.c, s.v, s.labels = c, v, map[string]bool{}
 	s.side = c15Sides[c.Side&1]
-	s.env = vStartServer(w.ServerConfig(c.Hidden))
+	scfg, ccfg := w.ServerConfig(c.Hidden), w.ClientConfig(c.Hidden, false)
+	if c.Side == 0 {
+		scfg.MaxBufferedPacketsPerConnection = c.Queue
+		s.qcap = scfg.maxBufferedPacketsPerConnection()
+	} else {
+		ccfg.MaxBufferedPackets = c.Queue
+		s.qcap = ccfg.maxBufferedPackets()
+	}
+	s.env = vStartServer(scfg)
 	defer s.env.Stop()
 	if c.Side == 0 {
 		s.eut, s.cur = vSrvAddr, vCliAddr
@@ -545,8 +678,10 @@ func c15Scenario(c c15Case, v *vlib.Verdict, s *c15Scn) {
 	}
 	s.wire.eut = s.eut
 	s.env.Net.Filter = s.wire.filter
-	cli, csock := s.env.NewClient(vCliAddr, w.ClientConfig(c.Hidden, false))
+	cli, csock := s.env.NewClient(vCliAddr, ccfg)
 	defer cli.Close()
+	s.eutRd.quit = make(chan struct{})
+	defer close(s.eutRd.quit) // releases an application that is still not reading when the script ends
 	s.cli = cli
 	if err := cli.Handshake(); err != nil {
 		s.setupErr = fmt.Sprintf("honest handshake failed: %v", err)
@@ -570,8 +705,10 @@ func c15Scenario(c c15Case, v *vlib.Verdict, s *c15Scn) {
 	}
 	s.addr = s.cur // the handshake came from here
 	synctest.Wait()
+	s.rdIn = true // the application waits in ReadMsg, nothing is queued
 
 	for i, st := range c.Steps {
+		s.app(st)
 		m := s.wire.mark()
 		addrBefore := s.addr
 		class, from, ok := s.step(st)
@@ -620,10 +757,10 @@ func c15Scenario(c c15Case, v *vlib.Verdict, s *c15Scn) {
 		// the session stays usable: genuine packets are accepted (also right after a move), adversarial ones are not,
 		// and what the endpoint writes reaches the peer whenever the peer is where its last genuine packet came from
 		if got := s.eutRd.count(); got < s.wantEut {
-			v.Failf("C15:"+s.side+":genuine-packet-not-accepted:"+ctx, "step %d (%s): the endpoint's application received %d messages, %d genuine fresh packets were delivered", i, ctx, got, s.wantEut)
+			v.Failf("C15:"+s.side+":genuine-packet-not-accepted:"+ctx, "step %d (%s): the endpoint's application received %d messages; %d genuine fresh packets were delivered while it was reading or waiting in ReadMsg (%d more wait in the queue of length %d, %d were dropped at a full queue)", i, ctx, got, s.wantEut, s.q, s.qcap, s.dropped)
 			return
 		} else if got > s.wantEut {
-			v.Failf("C15:"+s.side+":accepted:"+ctx, "step %d (%s): the endpoint's application received %d messages, only %d genuine fresh packets were delivered", i, ctx, got, s.wantEut)
+			v.Failf("C15:"+s.side+":accepted:"+ctx, "step %d (%s): the endpoint's application received %d messages, only %d genuine fresh packets were delivered while it was reading or waiting in ReadMsg (%d more wait in the queue of length %d, %d were dropped at a full queue)", i, ctx, got, s.wantEut, s.q, s.qcap, s.dropped)
 			return
 		}
 		if c15Same(s.addr, s.cur) {
@@ -636,15 +773,27 @@ func c15Scenario(c c15Case, v *vlib.Verdict, s *c15Scn) {
 			return
 		}
 	}
+	// an application that was not reading when the script ended reads again: what was queued comes out, no more, no less
+	if s.stalled {
+		s.appResume()
+		if got := s.eutRd.count(); got != s.wantEut {
+			v.Failf("C15:"+s.side+":queued-messages-after-app-resumes:"+map[bool]string{true: "missing", false: "surplus"}[got < s.wantEut], "after the script the endpoint's application reads again and has received %d messages in total; %d genuine fresh packets were taken by it or found room in the queue (queue length %d, %d dropped at a full queue)", got, s.wantEut, s.qcap, s.dropped)
+			return
+		}
+	}
 }
 
 func c15Run(t *testing.T) func(c c15Case, v *vlib.Verdict) {
 	return func(c c15Case, v *vlib.Verdict) {
-		if c.Side < 0 || c.Side > 1 || len(c.Steps) == 0 {
+		if c.Side < 0 || c.Side > 1 || len(c.Steps) == 0 || c.Queue < 0 || c.Queue > 64 {
 			v.Discard = true
 			return
 		}
 		for _, st := range c.Steps {
+			if st.App < 0 || st.App > 2 || st.Extra < 0 || st.Extra > 16 || (st.Extra > 0 && st.Kind > c15Move) {
+				v.Discard = true
+				return
+			}
 			if st.Kind < 0 || st.Kind > c15Trunc || st.Len < 0 || st.Len > 4096 || ((st.Kind != c15Forged && st.Kind != c15Move) && st.Len < 1) {
 				v.Discard = true
 				return
@@ -678,6 +827,17 @@ func c15Run(t *testing.T) func(c c15Case, v *vlib.Verdict) {
 		sort.Strings(ls)
 		for _, l := range ls {
 			v.Label(l)
+		}
+		switch {
+		case c.Queue == 0:
+			v.Label("receive-queue:package-default")
+		case c.Queue <= 2:
+			v.Label(fmt.Sprintf("receive-queue:%d", c.Queue))
+		default:
+			v.Label("receive-queue:3-5")
+		}
+		if !s.labels["app:stops-reading"] {
+			v.Label("app:reads-throughout")
 		}
 		switch n := len(c.Steps); {
 		case n < 10:
@@ -730,6 +890,12 @@ func c15GenStep(t *rapid.T) c15Step {
 	}
 	if kind != c15Move {
 		st.Len = rapid.IntRange(1, 120).Draw(t, "len")
+	}
+	// the endpoint's application: mostly no change; stops are drawn more often than resumptions so that stretches
+	// without a reader are long enough to fill a short queue
+	st.App = rapid.SampledFrom([]int{0, 0, 0, 0, 0, 0, 0, 0, 0, 0, 0, 0, 1, 1, 1, 2, 2}).Draw(t, "app")
+	if kind <= c15Move {
+		st.Extra = rapid.SampledFrom([]int{0, 0, 0, 0, 0, 0, 1, 1, 2, 3, 6}).Draw(t, "extra")
 	}
 	switch kind {
 	case c15Roam, c15Move:
@@ -810,6 +976,7 @@ func c15GenStep(t *rapid.T) c15Step {
 func c15Gen(t *rapid.T) c15Case {
 	c := c15Case{Hidden: rapid.Bool().Draw(t, "hidden"), Side: rapid.IntRange(0, 1).Draw(t, "side")}
 	c.Fam = rapid.SampledFrom([]int{0, 0, 1, 2, 2}).Draw(t, "fam")
+	c.Queue = rapid.SampledFrom([]int{0, 0, 0, 1, 1, 1, 2, 2, 3, 5}).Draw(t, "queue")
 	n := rapid.IntRange(5, 40).Draw(t, "nsteps") // drawn explicitly: SliceOfN alone favours short scripts
 	c.Steps = rapid.SliceOfN(rapid.Custom(c15GenStep), n, n).Draw(t, "steps")
 	// a stale step costs ~450 packets: at most two per script, later ones become replays
@@ -883,6 +1050,17 @@ func c15Baseline(t *testing.T) {
 			run(c, &v)
 			if !v.OK() || v.Inconclusive != "" || v.Discard {
 				t.Fatalf("VERIF-MACHINERY C15 baseline (hidden=%v side=%d): honest script without address changes does not pass: %+v %s", hidden, side, v.Violations, v.Inconclusive)
+			}
+			// the same with a queue of two packets and an application that stops reading, overflows the queue, reads
+			// again (twice; the second stretch lasts to the end of the script): checks the harness's model of the queue
+			c.Queue = 2
+			for i, app := range []int{1, 0, 0, 0, 2, 0, 1, 0} {
+				c.Steps = append(c.Steps, c15Step{Kind: c15Genuine, Len: 3 + i, Seed: uint64(100 + i), App: app, Extra: i % 3})
+			}
+			v = vlib.Verdict{}
+			run(c, &v)
+			if !v.OK() || v.Inconclusive != "" || v.Discard || !slices.Contains(v.Labels, "genuine-packet-dropped-at-full-queue") {
+				t.Fatalf("VERIF-MACHINERY C15 baseline (hidden=%v side=%d): honest script without address changes, slow application and a queue of 2, does not pass or does not overflow the queue: %+v %s", hidden, side, v.Violations, v.Inconclusive)
 			}
 		}
 	}
